@@ -424,7 +424,7 @@ func checkC01(c *hx.Checker) {
 		"Templates: Add/Sub/Mul (all ordered pairs for Sub), Relu, Transpose, Softmax{axis=-1}, Softmax{axis=0}, MatMul, Gemm{transB}, Gemm{transA,alpha=.5,beta=2} (C wired / omitted / empty), Concat+Slice, Reshape, Squeeze, Constant, RNN/GRU/LSTM with default and with explicit non-default activations (initial_h omitted / empty / wired; 5 output naming schemes: arbitrary, spec names, permuted spec names, trailing output omitted, skipped output with empty name). " +
 		"BFS: all programs of depth <= 2 over the full alphabet; depth 3 over the reduced alphabet {Sub, Relu, Transpose, Gemm2, GRU} as chains (each node consumes its predecessor's result)" +
 		map[bool]string{true: " and, thorough, unrestricted depth 3 over the reduced alphabet plus ALL depth-3 programs over the full alphabet (streamed simplest-first under a 25-minute budget; the evidence says whether it completed)", false: ""}[thorough] +
-		"; 2 input value sets; every depth<=1 program also with w1 declared as graph input (not supplied / supplied with another value), with the graph inputs declared with symbolic dims / without shape, and with the initializer w1 and the graph input a declared as graph outputs (passthrough); with value_info entries for every intermediate value, and with one output name more than the last node's operator returns (declared as graph output: Run must fail), with the last graph output declared twice, and with the caller's map carrying other tensors under the names of the intermediate values (computed correctly or refused); scalar (rank-0) graph inputs with and without an initializer default; one 5-node program under 7 value-naming schemes (prefixes of each other, case-only differences, odd characters, numeric-looking, very long, keyword-like) x 4 orders of the input / initializer / output lists; a chain of 600 nodes; 4 graphs with a node whose operator fails while computing (error, never a nil output); 31 pairs of twin nodes (same operator, same inputs; one differing attribute of each kind, or spelled out vs left to the default) in 3 orders. Every program is marshalled, loaded with NewModelFromBytes and Run with EVERY intermediate value declared as graph output - and every program of depth >= 2 a second time with only the LAST node's values declared (intermediates that the executor may release; forwarding nodes - Expand to the same shape, single-input Concat - hand one tensor object on under two names) - and compared value by value with the reference evaluation of the same graph. " +
+		"; 2 input value sets; every depth<=1 program also with w1 declared as graph input (not supplied / supplied with another value), with the graph inputs declared with symbolic dims / without shape, and with the initializer w1 and the graph input a declared as graph outputs (passthrough); with value_info entries for every intermediate value, and with one output name more than the last node's operator returns (declared as graph output: Run must fail), with the last graph output declared twice, and with the caller's map carrying other tensors under the names of the intermediate values (computed correctly or refused); scalar (rank-0) graph inputs with and without an initializer default; one 5-node program under 7 value-naming schemes (prefixes of each other, case-only differences, odd characters, numeric-looking, very long, keyword-like) x 4 orders of the input / initializer / output lists; a chain of 600 nodes; 4 graphs with a node whose operator fails while computing (error, never a nil output); 31 pairs of twin nodes (same operator, same inputs; one differing attribute of each kind, or spelled out vs left to the default) in 3 orders. A producer -> consumer sweep: every representative case of every operator, and producers chosen for the state they leave behind (every transpose of shapes with extent-1 axes, rank-preserving reshapes, slices, gathers, squeezes), followed - directly and through Relu / Mul(-1) - by each of 31 shape-agnostic consumers (broadcasts that stretch the value, PRelu on either side, transposes, reshapes, slices, gathers, concats, reductions, Softmax, MatMul, Gemm C, Expand, Cast, Shape): about 16 000 two- and three-node graphs; two-node graphs with the operator-set domain spelled empty / ai.onnx / ai.onnx.ml on each node. Every program is marshalled, loaded with NewModelFromBytes and Run with EVERY intermediate value declared as graph output - and every program of depth >= 2 a second time with only the LAST node's values declared (intermediates that the executor may release; forwarding nodes - Expand to the same shape, single-input Concat - hand one tensor object on under two names) - and compared value by value with the reference evaluation of the same graph. " +
 		"states = program prefixes, transitions = appended node instances; non-trivial = programs with >= 1 node"
 	c.Assumptions = []string{"reference evaluator: ref interpreter applied node by node to a name->tensor environment (refeval.go)", "tolerance 1e-4 (abs+rel) on float32 values of magnitude <= ~10",
 		"a node listing fewer output names than the operator returns may be refused (positional binding with length check) but must never yield nil / missing outputs"}
@@ -533,6 +533,8 @@ func checkC01(c *hx.Checker) {
 		c.Case(hx.CaseInfo{ID: id, Tags: tags, NonTrivial: len(it.p.Nodes) > 0, Sample: sample}, func() *hx.Violation { return mc.run() })
 	}
 	c.ParallelFor(len(items), func(i int) { runItem(i, items[i]) })
+	pairSweep(c)
+	domainSweep(c)
 	// naming and ordering stress on one fixed program (x = Sub(a,b); y = Relu(x); z = Add(y,w1); t = Transpose(z);
 	// u = MatMul(t,w2)): value names that are prefixes of each other, differ only in case, carry spaces / dots /
 	// non-ASCII characters or are very long; the lists of initializers, graph inputs and graph outputs in every
